@@ -193,4 +193,60 @@ theorem rounded_excursion_lower (u epsf m x d1 d2 d3 d4 d5 d6 : F) (hu0 : 0 < u)
   have hx1 : x * ((m - 1) / (m * m) * x * Q) ≤ x * 1 := mul_le_mul_of_nonneg_left (by linarith) hx0
   linarith
 
+/-! ### link to the transcription: the excursion branch under a rounded `ClipOps` instance -/
+
+/-- Rounded arithmetic in the standard model: each operation returns the exact result times `(1+δ)`, `|δ| ≤ u`. -/
+structure RoundedArith (F : Type) [Field F] [LinearOrder F] [IsStrictOrderedRing F] (u : F) where
+  radd : F → F → F
+  rsub : F → F → F
+  rmul : F → F → F
+  rdiv : F → F → F
+  add_spec : ∀ a b, ∃ d, |d| ≤ u ∧ radd a b = (a + b) * (1 + d)
+  mul_spec : ∀ a b, ∃ d, |d| ≤ u ∧ rmul a b = (a * b) * (1 + d)
+  div_spec : ∀ a b, ∃ d, |d| ≤ u ∧ rdiv a b = (a / b) * (1 + d)
+
+/-- `ClipOps` whose + - * / are the rounded operations (negation, fabs, comparisons and constants are exact). -/
+@[reducible] def roundedOps {u : F} (R : RoundedArith F u) (epsf : F) : ClipOps F where
+  add := R.radd
+  sub := R.rsub
+  mul := R.rmul
+  div := R.rdiv
+  neg := (- ·)
+  zero := 0
+  one := 1
+  two := 2
+  eps := epsf
+  abs := fun v => |v|
+  ltb := fun a b => decide (a < b)
+  leb := fun a b => decide (a ≤ b)
+  ofNat := fun n => (n : F)
+
+/-- **Linking lemma.**  For a positive excursion (`0 < xi`), what the transcription's excursion branch computes
+    for a sample `x` with peak `m` — `nl (coefA m xi) x` in the instance `roundedOps R epsf` — is
+    `(x - t2)·(1+δ7)` where `t2` is exactly the expression of `rounded_excursion_upper/lower` for some
+    `|δ1..δ7| ≤ u`, provided `m - 1` is computed exactly (Sterbenz: `1 < m ≤ 2`). -/
+theorem nl_coefA_rounded {u : F} (R : RoundedArith F u) (epsf m xi x : F) (hxi : 0 < xi) (hsub : R.rsub m 1 = m - 1) :
+    ∃ d1 d2 d3 d4 d5 d6 d7 : F, |d1| ≤ u ∧ |d2| ≤ u ∧ |d3| ≤ u ∧ |d4| ≤ u ∧ |d5| ≤ u ∧ |d6| ≤ u ∧ |d7| ≤ u ∧
+      @nl F (roundedOps R epsf) (@coefA F (roundedOps R epsf) m xi) x =
+        (x - ((((m - 1) / (m * m * (1 + d1)) * (1 + d2)) + ((m - 1) / (m * m * (1 + d1)) * (1 + d2)) * epsf * (1 + d4)) *
+          (1 + d3) * x * (1 + d5)) * x * (1 + d6)) * (1 + d7) := by
+  obtain ⟨d1, h1, e1⟩ := R.mul_spec m m
+  obtain ⟨d2, h2, e2⟩ := R.div_spec (m - 1) (R.rmul m m)
+  obtain ⟨d4, h4, e4⟩ := R.mul_spec (R.rdiv (m - 1) (R.rmul m m)) epsf
+  obtain ⟨d3, h3, e3⟩ := R.add_spec (R.rdiv (m - 1) (R.rmul m m)) (R.rmul (R.rdiv (m - 1) (R.rmul m m)) epsf)
+  obtain ⟨a', ha'⟩ : ∃ a' : F, a' = R.radd (R.rdiv (m - 1) (R.rmul m m)) (R.rmul (R.rdiv (m - 1) (R.rmul m m)) epsf) := ⟨_, rfl⟩
+  obtain ⟨d5, h5, e5⟩ := R.mul_spec (-a') x
+  obtain ⟨d6, h6, e6⟩ := R.mul_spec (R.rmul (-a') x) x
+  obtain ⟨d7, h7, e7⟩ := R.add_spec x (R.rmul (R.rmul (-a') x) x)
+  refine ⟨d1, d2, d3, d4, d5, d6, d7, h1, h2, h3, h4, h5, h6, h7, ?_⟩
+  have hcoef : @coefA F (roundedOps R epsf) m xi = -a' := by
+    show (if decide ((0 : F) < xi) then -(R.radd (R.rdiv (R.rsub m 1) (R.rmul m m)) (R.rmul (R.rdiv (R.rsub m 1) (R.rmul m m)) epsf))
+          else R.radd (R.rdiv (R.rsub m 1) (R.rmul m m)) (R.rmul (R.rdiv (R.rsub m 1) (R.rmul m m)) epsf)) = -a'
+    rw [hsub, ← ha']; simp only [hxi, decide_true, if_true]
+  have hnl : @nl F (roundedOps R epsf) (-a') x = R.radd x (R.rmul (R.rmul (-a') x) x) := rfl
+  have hval : a' = ((m - 1) / (m * m * (1 + d1)) * (1 + d2) + (m - 1) / (m * m * (1 + d1)) * (1 + d2) * epsf * (1 + d4)) * (1 + d3) := by
+    rw [ha', e3, e4, e2, e1]
+  rw [hcoef, hnl, e7, e6, e5, hval]
+  ring
+
 end Opus.SoftClip
